@@ -1,6 +1,7 @@
 package props
 
 import (
+	"path/filepath"
 	"context"
 	"crypto/ecdh"
 	"encoding/hex"
@@ -12,6 +13,7 @@ import (
 
 	"github.com/c2FmZQ/ech"
 
+	"verif/harness/ev"
 	"verif/harness/hello"
 	"verif/harness/wire"
 )
@@ -72,9 +74,35 @@ func replayKeys(t *testing.T, c map[string]any) []ech.Key {
 	return keys
 }
 
-// replayHelloFamily replays a concrete first-hello case without rapid.
+// replayHelloFamily replays the concrete first-hello case named by VERIF_REPLAY_FILE.
 func replayHelloFamily(t *testing.T, prop string) {
-	doc := loadReplay(t)
+	replayHelloDoc(t, prop, loadReplay(t))
+}
+
+// regress replays every saved case under $VERIF_DIR/regress/<prop>/.
+func regress(t *testing.T, prop string, run func(t *testing.T, doc map[string]any)) {
+	dir := os.Getenv("VERIF_DIR")
+	if dir == "" {
+		dir = "/verif"
+	}
+	files, _ := filepath.Glob(filepath.Join(dir, "regress", prop, "*.json"))
+	for _, f := range files {
+		b, err := os.ReadFile(f)
+		if err != nil {
+			t.Fatalf("regress: %v", err)
+		}
+		var doc map[string]any
+		if err := json.Unmarshal(b, &doc); err != nil {
+			t.Fatalf("regress: %s: %v", f, err)
+		}
+		os.Setenv("VERIF_REPLAY_FILE", f)
+		t.Run(filepath.Base(f), func(t *testing.T) { run(t, doc) })
+		ev.Get(prop).Class("regress_replayed")
+	}
+}
+
+// replayHelloDoc replays a concrete first-hello case without rapid.
+func replayHelloDoc(t *testing.T, prop string, doc map[string]any) {
 	c := findCase(doc)
 	if c == nil {
 		t.Fatalf("replay: no client_stream in %v", doc)
@@ -154,3 +182,8 @@ func TestC03Replay(t *testing.T) { replayHelloFamily(t, "C03") }
 func TestC04Replay(t *testing.T) { replayHelloFamily(t, "C04") }
 func TestC05Replay(t *testing.T) { replayHelloFamily(t, "C05") }
 func TestC09Replay(t *testing.T) { replayHelloFamily(t, "C09") }
+
+func TestC04Regress(t *testing.T) { regress(t, "C04", func(t *testing.T, d map[string]any) { replayHelloDoc(t, "C04", d) }) }
+func TestC05Regress(t *testing.T) { regress(t, "C05", func(t *testing.T, d map[string]any) { replayHelloDoc(t, "C05", d) }) }
+func TestC02Regress(t *testing.T) { regress(t, "C02", func(t *testing.T, d map[string]any) { replayHelloDoc(t, "C02", d) }) }
+func TestC03Regress(t *testing.T) { regress(t, "C03", func(t *testing.T, d map[string]any) { replayHelloDoc(t, "C03", d) }) }
